@@ -7,6 +7,16 @@ _ld = json.loads
 _pu = lambda db: {u: len([1 for (u2, p) in db['Visits'] if u2 == u]) for u in {u for (u, p) in db['Visits']}}
 
 ROUND5 = [
+  # a functor applied to a member of a mutually recursive, iteratively unfolded component: the copy is the same
+  # recursion from the other start, and the original keeps its meaning (known finding: it does not, see DESIGN 9.9)
+  S('rec_functor_over_deep_mutual', '@Recursive(A, 25);\nA(x) distinct :- St(x);\nA(x + 1) distinct :- B(x);\n'
+    'B(x + 1) distinct :- A(x);\nMA := A(St: Sm);', {'St': 1, 'Sm': 1},
+    {'MA': lambda db: sorted({(x + k,) for (x,) in db['Sm'] for k in range(0, 26, 2)})},
+    tags=('C03', 'C04'), workflow=True, max_rows={'quick': 1, 'thorough': 1}, domain=[0, 100]),
+  S('rec_functor_over_deep_mutual_original', '@Recursive(A, 25);\nA(x) distinct :- St(x);\nA(x + 1) distinct :- B(x);\n'
+    'B(x + 1) distinct :- A(x);\nMA := A(St: Sm);', {'St': 1, 'Sm': 1},
+    {'A': lambda db: sorted({(x + k,) for (x,) in db['St'] for k in range(0, 26, 2)})},
+    tags=('C03', 'C04'), workflow=True, max_rows={'quick': 1, 'thorough': 1}, domain=[0, 100]),
   # one application binding two arguments, one of which is defined through the other
   S('functor_arg_defined_via_other_arg', 'A(x) :- C(x);\nM(x) :- A(x);\nF(x) :- M(x);\nF(x) :- C(y), x == y + 1000;\n'
     'N := F(A: B, C: D);\nN1 := F(A: B);\nN2 := F(C: D);', {'B': 1, 'C': 1, 'D': 1},
